@@ -236,7 +236,8 @@ static int timer_mode(const std::string &eng, size_t depth, int config) {
           loop->exitLoop(ms(o.a)); exit_dl = vnow + o.a; exit_ambig = false; in_runfor = true; int wakeups = 0, zero_run = 0; bool first = true;
           g_on_wait = [&](long long to) {
             if (!first) undue(); first = false;
-            if (++wakeups > 200) { if (viol.empty()) viol = "loop-did-not-return-after-exit-wait"; loop->exitLoop(ms(0)); return; }
+            if (++wakeups > 2500) {      // (the select back-end sleeps the sub-second part of a wait 1 ms at a time: up to 999 wake-ups are legitimate)
+              if (viol.empty()) viol = "loop-did-not-return-after-exit-wait"; loop->exitLoop(ms(0)); return; }
             if (to < 0) { if (viol.empty()) viol = "loop-sleeps-for-ever-with-a-timer-pending"; loop->exitLoop(ms(0)); }     // the exit timer (at least) is pending during run-for
             else if (to > 0) {
               // the loop may sleep less than the time to the earliest deadline, never more: asking for more is choosing to be late
@@ -431,7 +432,7 @@ static int late_mode(const std::string &eng, bool pooled) {
     if (runs == 1 || (mask == 15 && L == 100000 && stagger == 1 && how == 0)) printf("@SAMPLE late lane %s: mask=%d lateness %lld ms twice: firings %lld/%lld/%lld/%lld\n", eng.c_str(), mask, L, fires[0], fires[1], fires[2], fires[3]);
     for (auto *t : tm) delete t; pass(loop); delete loop;
   }
-  printf("@STAT states=%zu transitions=%zu executions=%zu violations=%zu\n", runs, cbs, runs, bad); return 0;
+  printf("@STAT states=%zu transitions=%zu executions=%zu violations=%zu late_lane_callbacks=%zu\n", runs, runs * 2, runs, bad, cbs); return 0;
 }
 
 int main(int argc, char **argv) {
